@@ -294,6 +294,9 @@ enum Family {
     /// the top of the f32 range: the Spread values scaled so that the largest lies in [2^127, 2^128); the
     /// sum of two large values overflows although their mean is finite
     Top,
+    /// one binade below `Top`: the largest value lies in [2^126, 2^127), so no sum of two values overflows and
+    /// every `average` mean at the top of the range is compared (Top itself leaves them don't-care)
+    BelowTop,
     /// the Spread values, but the first two ranks >= 1 whose pairs share an input get the SAME value:
     /// two inputs exactly equidistant from a third while the closest pair is unique
     EqualPair,
@@ -324,6 +327,7 @@ impl Family {
             Family::MixedTinyHalf => "closest-half-tiny",
             Family::Subnormal => "subnormal",
             Family::Top => "top-of-range",
+            Family::BelowTop => "one-binade-below-top",
             Family::EqualPair => "two-equal",
             Family::ZeroRank0 => "zero-at-rank-0",
             Family::ZeroRank1 => "zero-at-rank-1",
@@ -335,10 +339,10 @@ impl Family {
         match self {
             Family::Spread | Family::InfTop | Family::InfBottom | Family::NegOne | Family::NegHalf | Family::NegAll | Family::EqualPair | Family::ZeroRank0 | Family::ZeroRank1 | Family::ZeroRankMid | Family::ZeroRankTop => (1u64 << (m + 6)) as f64,
             Family::Subnormal => 2f64.powi(149),
-            Family::Top => {
+            Family::Top | Family::BelowTop => {
                 let top = if m == 0 { 1 } else { base_int(Family::Spread, m - 1, m) };
                 let bits = 64 - top.leading_zeros() as i32;
-                2f64.powi(bits - 128)
+                2f64.powi(bits - if self == Family::Top { 128 } else { 127 })
             }
             Family::Tiny30 => (1u64 << (m + 6)) as f64 * 2f64.powi(30),
             Family::Tiny60 => (1u64 << (m + 6)) as f64 * 2f64.powi(60),
@@ -399,7 +403,7 @@ fn zero_rank(fam: Family, m: usize) -> Option<usize> {
 
 fn base_int(fam: Family, rank: usize, m: usize) -> u64 {
     match fam {
-        Family::Spread | Family::InfTop | Family::InfBottom | Family::NegOne | Family::NegHalf | Family::NegAll | Family::Tiny30 | Family::Tiny60 | Family::Tiny100 | Family::Huge60 | Family::Top | Family::EqualPair | Family::ZeroRank0 | Family::ZeroRank1 | Family::ZeroRankMid | Family::ZeroRankTop => (((rank as u64) + 1) << m) | (1u64 << rank),
+        Family::Spread | Family::InfTop | Family::InfBottom | Family::NegOne | Family::NegHalf | Family::NegAll | Family::Tiny30 | Family::Tiny60 | Family::Tiny100 | Family::Huge60 | Family::Top | Family::BelowTop | Family::EqualPair | Family::ZeroRank0 | Family::ZeroRank1 | Family::ZeroRankMid | Family::ZeroRankTop => (((rank as u64) + 1) << m) | (1u64 << rank),
         Family::Subnormal => 8 * ((((rank as u64) + 1) << m) | (1u64 << rank)) + 1,
         Family::MixedTiny2 | Family::MixedTinyHalf => {
             let spread = (((rank as u64) + 1) << m) | (1u64 << rank);
@@ -1084,6 +1088,11 @@ fn fmt_pairs(p: &[(u32, u32)]) -> String {
     v.join(" ")
 }
 
+thread_local! {
+    /// set by `check` when it ends in the order don't-care (see there); read and reset by `one`
+    static ORDER_DONT_CARE: std::cell::Cell<bool> = std::cell::Cell::new(false);
+}
+
 fn check(inp: &Inputs, method: Method, obs: &Obs, rf: &RefRun, rec: &Rec) -> Option<Fail> {
     let n = inp.n();
     let site = method.site();
@@ -1105,18 +1114,6 @@ fn check(inp: &Inputs, method: Method, obs: &Obs, rf: &RefRun, rec: &Rec) -> Opt
                 "the initial distance call does not receive each unordered pair of inputs exactly once",
                 format!("n={n}: expected {} pairs before any pair with a merged set, the first {} pairs received are: {}", pairs.len(), rec.first.len(), fmt_pairs(&rec.first)),
             );
-        }
-        // The order of the pairs inside the initial call is not part of the property. The harness only relies
-        // on it when two inputs have equal content (two empty sets): then the first call is keyed by position.
-        // If the order ever differs in such a family, the run is a don't-care instead of a false alarm.
-        let order_as_assumed = pairs.iter().enumerate().all(|(k, &(i, j))| rec.first[k] == (inp.sets[i], inp.sets[j]));
-        if !order_as_assumed {
-            let mut contents: Vec<u32> = inp.sets.to_vec();
-            contents.sort_unstable();
-            let has_equal_contents = contents.windows(2).any(|w| w[0] == w[1]);
-            if has_equal_contents {
-                return None;
-            }
         }
     }
     if rec.malformed > 0 {
@@ -1217,6 +1214,23 @@ fn check(inp: &Inputs, method: Method, obs: &Obs, rf: &RefRun, rec: &Rec) -> Opt
     }
     if rec.overlap > 0 {
         return fail(site, "the distance callback receives two different overlapping sets (not two live clusters)", format!("n={n}: later calls {:?}", rec.later));
+    }
+    // The order of the pairs inside the initial call is not part of the property. The harness relies on it only
+    // where the first call is keyed by POSITION: two inputs with equal content whose first-call atoms differ from
+    // their content (the two empty sets of the two-empty-inputs families; the overlapping-inputs tables are keyed
+    // by content, equal inputs need no order there). If the order ever differs in such a family the distances the
+    // library was given are not the ones of the reference: everything that does not depend on the distances has
+    // been checked above, the comparison with the reference is a counted don't-care instead of a false alarm.
+    {
+        let order_as_assumed = pairs.iter().enumerate().all(|(k, &(i, j))| rec.first[k] == (inp.sets[i], inp.sets[j]));
+        if !order_as_assumed && inp.first_atoms != inp.sets {
+            let mut contents: Vec<u32> = inp.sets.to_vec();
+            contents.sort_unstable();
+            if contents.windows(2).any(|w| w[0] == w[1]) {
+                ORDER_DONT_CARE.with(|c| c.set(true));
+                return None;
+            }
+        }
     }
     // ---- closest pair, reported distance, update rule: against the reference, up to the first tie
     let upto = rf.tie_at.unwrap_or(n - 1).min(rf.overflow_from.unwrap_or(n - 1));
@@ -1349,6 +1363,9 @@ struct Tally {
     overflow: u64,
     /// runs in which cluster().size_hint() was correct but not exact
     inexact_hint: u64,
+    /// runs whose comparison with the reference was given up because the initial pairs came in another order
+    /// while two empty inputs are told apart by position only (structure checked, not counted as validated)
+    order_dont_care: u64,
 }
 
 /// One clustering of the inputs under `method` with the given rank order; compares with the reference.
@@ -1405,7 +1422,9 @@ fn one(ctx: &mut Ctx, env: &Env, inp: &Inputs, rank_of_pair: &[usize], table: &T
                     ctx.violation(&f.site, f.sig, d);
                 }
                 None => {
-                    if rf.tie_at.is_some() {
+                    if ORDER_DONT_CARE.with(|c| c.replace(false)) {
+                        tally.order_dont_care += 1;
+                    } else if rf.tie_at.is_some() {
                         tally.ties[method as usize] += 1;
                     } else if rf.overflow_from.is_some() {
                         tally.overflow += 1;
@@ -1455,6 +1474,9 @@ fn flush(ctx: &mut Ctx, n: usize, tag: &str, special: bool, orders: u64, tally: 
     }
     if tally.overflow > 0 {
         ctx.bump(&format!("average_sum_overflow_dont_care/{tag}/n{n}"), tally.overflow);
+    }
+    if tally.order_dont_care > 0 {
+        ctx.bump(&format!("no verdict: initial pairs in another order with two empty inputs (first call keyed by position)/{tag}/n{n}"), tally.order_dont_care);
     }
     for &m in &METHODS {
         let t = tally.ties[m as usize];
@@ -2497,11 +2519,13 @@ pub fn run(ctx: &mut Ctx) {
                     Some(Flagged { ont: o, facts: f, rust })
                 } else {
                     ctx.note("C17: the ontology decoded from bytes does not carry the obsolete / replacement flags; the flagged-terms spaces are skipped");
+                    ctx.bump("skipped: flagged-terms spaces (the decoded ontology does not carry the flags)", 1);
                     None
                 }
             }
             other => {
                 ctx.note(&format!("C17: the flagged ontology cannot be decoded from bytes ({other:?}); the flagged-terms spaces are skipped", other = other.map(|r| r.map(|_| "ok"))));
+                ctx.bump("skipped: flagged-terms spaces (the flagged ontology cannot be decoded from bytes)", 1);
                 None
             }
         }
@@ -2511,7 +2535,7 @@ pub fn run(ctx: &mut Ctx) {
         selfcheck_values(n_pairs(n), Family::Spread);
         selfcheck_values(n_pairs(n), Family::Linear);
         if n <= 5 {
-            for fam in [Family::Tiny30, Family::Tiny60, Family::Tiny100, Family::Huge60, Family::MixedTiny2, Family::MixedTinyHalf, Family::Subnormal, Family::Top] {
+            for fam in [Family::Tiny30, Family::Tiny60, Family::Tiny100, Family::Huge60, Family::MixedTiny2, Family::MixedTinyHalf, Family::Subnormal, Family::Top, Family::BelowTop] {
                 selfcheck_values(n_pairs(n), fam);
             }
             selfcheck_values(n_pairs(n), Family::Geometric);
@@ -2579,6 +2603,7 @@ pub fn run(ctx: &mut Ctx) {
                 Family::MixedTiny2 | Family::MixedTinyHalf => format!("the {} closest of the {m} pairs at 2^-40 times their ordinary value, the others ordinary", tiny_ranks(fam, m)),
                 Family::Subnormal => "every distance an odd multiple (1 mod 8) of the smallest subnormal 2^-149, so that every mean of two parts is exactly representable while halving one value alone is not".to_string(),
                 Family::Top => "scaled so that the largest distance lies in [2^127, 2^128): min, max and the callback are exact; for `average` a mean whose f32 sum overflows is don't-care (compared up to that merge, counted in extra)".to_string(),
+                Family::BelowTop => "scaled so that the largest distance lies in [2^126, 2^127): no sum of two distances overflows, so every `average` mean at the top of the range is compared like any other".to_string(),
                 Family::EqualPair => "the first two ranks >= 1 whose pairs share an input at the same value (two inputs equidistant from a third, the closest pair unique)".to_string(),
                 Family::ZeroRank0 | Family::ZeroRank1 | Family::ZeroRankMid | Family::ZeroRankTop => format!("shifted so that the pair of rank {} is at exactly 0.0 (closer pairs negative, the others positive)", zero_rank(fam, m).unwrap_or(0)),
                 _ => format!("every distance {}", fam.name()),
@@ -2592,9 +2617,9 @@ pub fn run(ctx: &mut Ctx) {
     };
     scaled(ctx, 3, &[Family::ZeroRank0, Family::ZeroRank1, Family::ZeroRankTop]);
     scaled(ctx, 4, &[Family::ZeroRank0, Family::ZeroRank1, Family::ZeroRankMid, Family::ZeroRankTop]);
-    scaled(ctx, 2, &[Family::Tiny30, Family::Tiny100, Family::Huge60, Family::Subnormal, Family::Top]);
-    scaled(ctx, 3, &[Family::Tiny30, Family::Tiny60, Family::Tiny100, Family::Huge60, Family::MixedTiny2, Family::Subnormal, Family::Top, Family::EqualPair]);
-    scaled(ctx, 4, &[Family::Tiny30, Family::Tiny60, Family::Tiny100, Family::Huge60, Family::MixedTiny2, Family::MixedTinyHalf, Family::Subnormal, Family::Top, Family::EqualPair]);
+    scaled(ctx, 2, &[Family::Tiny30, Family::Tiny100, Family::Huge60, Family::Subnormal, Family::Top, Family::BelowTop]);
+    scaled(ctx, 3, &[Family::Tiny30, Family::Tiny60, Family::Tiny100, Family::Huge60, Family::MixedTiny2, Family::Subnormal, Family::Top, Family::BelowTop, Family::EqualPair]);
+    scaled(ctx, 4, &[Family::Tiny30, Family::Tiny60, Family::Tiny100, Family::Huge60, Family::MixedTiny2, Family::MixedTinyHalf, Family::Subnormal, Family::Top, Family::BelowTop, Family::EqualPair]);
 
     // ---- how the inputs are handed in: every adaptor on every rank order for n <= 4 (all other spaces rotate
     //      through the adaptors by case number)
